@@ -30,8 +30,16 @@ fn bloom(n: usize, p: f64, seed: u64) -> Value {
         (failed, missing, fp, len, f.verif_bits().len())
     });
     match r {
-        Ok((failed, missing, fp, len, ones)) => json!({"res": "ok", "k": k.min(1 << 30), "m": m.min(1 << 30), "failed": failed, "missing": missing,
-                                                      "fp": fp, "probes": PROBES, "len": len.min(1 << 30), "ones": ones}),
+        Ok((failed, missing, fp, len, ones)) => {
+            // the textbook false-positive rate of a Bloom filter with the k and m the constructor chose, after n inserts:
+            // (1 - e^(-kn/m))^k, against the bound 1.3 p; TLC has no exp / ln, so both are handed over as milli-nats
+            let (kf, mf, nf) = (k as f64, m as f64, n as f64);
+            let ln_rate = kf * (1.0 - (-kf * nf / mf).exp()).ln();
+            let ln_bound = (1.3 * p).ln();
+            json!({"res": "ok", "k": k.min(1 << 30), "m": m.min(1 << 30), "failed": failed, "missing": missing,
+                   "fp": fp, "probes": PROBES, "len": len.min(1 << 30), "ones": ones,
+                   "ln_rate_milli": (ln_rate * 1000.0).floor().max(-2.0e9) as i64, "ln_bound_milli": (ln_bound * 1000.0).ceil() as i64})
+        }
         Err(msg) => json!({"res": "panic", "where": "use", "panic": msg, "k": k.min(1 << 30), "m": m.min(1 << 30)}),
     }
 }
